@@ -83,6 +83,7 @@ type Client struct {
 	FailFrom     int   // with FailN > 0: the FailN CAS calls starting with the FailFrom-th (1-based) are rejected
 	FailN        int
 
+	Failed   int // CAS calls that returned an error to the actor
 	Writes   int // commits so far
 	Attempts int // invocations of f so far
 	casSeq   int
@@ -145,7 +146,12 @@ func (st *Store) Wipe(key string) error {
 	return st.Inner.Delete(context.Background(), key)
 }
 
-func (c *Client) CAS(ctx context.Context, key string, f func(in interface{}) (out interface{}, retry bool, err error)) error {
+func (c *Client) CAS(ctx context.Context, key string, f func(in interface{}) (out interface{}, retry bool, err error)) (err error) {
+	defer func() {
+		if err != nil {
+			c.Failed++
+		}
+	}()
 	s := c.st.S
 	if c.Dead {
 		select {}
@@ -166,7 +172,7 @@ func (c *Client) CAS(ctx context.Context, key string, f func(in interface{}) (ou
 	}
 	var lastIn, lastOut interface{}
 	attempt := 0
-	err := c.st.Inner.CAS(ctx, key, func(in interface{}) (interface{}, bool, error) {
+	err = c.st.Inner.CAS(ctx, key, func(in interface{}) (interface{}, bool, error) {
 		attempt++
 		c.Attempts++
 		inCopy := c.st.Clone(in)
